@@ -449,7 +449,12 @@ class Bin(Factory, Container):
             # Numpy defines histograms as including the upper edge of the last bin only, so drop that
             weights[q == self.high] = 0.0
 
-            h, _ = np.histogram(q, self.num, (self.low, self.high), weights=weights)
+            # the index formula of fill(): np.histogram compares with linspace edges instead, which puts values
+            # within rounding distance of an edge (0.3 in Bin(10, 0, 1)) into the neighbouring bin
+            inrange = np.logical_and(q >= self.low, q < self.high)
+            index = np.floor(self.num * (q[inrange] - self.low) / (self.high - self.low)).astype(int)
+            index[index >= self.num] = self.num - 1
+            h = np.bincount(index, weights=weights[inrange], minlength=self.num)
 
             for hi, value in zip(h, self.values):
                 value.fill(None, float(hi))
